@@ -6,7 +6,7 @@ Import ListNotations.
 Require Import MV.Model.Orch MV.Model.OrchCheck MV.Model.Options MV.Model.Identity MV.Model.Grouping MV.Model.PlannerA MV.Model.PlannerO.
 Require Import MV.Model.StepTables.
 Require Import MV.Spec.GroupingSpec MV.Spec.PlannerASpec.
-Require Import MV.Proofs.PlannerOGroup MV.Proofs.PlannerOP.
+Require Import MV.Proofs.GroupingP MV.Proofs.PlannerOGroup MV.Proofs.PlannerOP.
 
 (* ---------- lists ---------- *)
 Lemma concat_filter_nonempty : forall A (l : list (list A)), concat (filter nonemptyb l) = concat l.
@@ -252,3 +252,139 @@ Example every_same_outside_example :
                {| it_id := 2; it_kb := 0; it_ty := None |}; {| it_id := 3; it_kb := 2; it_ty := None |} ] in
   kf_ambiguous its = false /\ group_items_every its = group_items its.
 Proof. vm_compute. split; reflexivity. Qed.
+
+(* ---------- outside C15's ambiguity domain the variant without `break` computes the same groups ---------- *)
+Definition members_in (its : list item) (c : coll) : Prop := forall k ms m, In (k, ms) c -> In m ms -> In m its.
+
+Lemma members_coll_add : forall its k x c, members_in its c -> In x its -> members_in its (coll_add k x c).
+Proof.
+  intros its k x c H Hx k' ms' m Hin Hm. destruct (coll_add_in _ _ _ _ _ Hin) as [(ms0 & Hc & [->|[-> ->]])|[-> ->]].
+  - exact (H _ _ _ Hc Hm).
+  - apply in_app_or in Hm. destruct Hm as [Hm|[<-|[]]]; [exact (H _ _ _ Hc Hm) | exact Hx].
+  - destruct Hm as [<-|[]]. exact Hx.
+Qed.
+
+Lemma members_pass1 : forall its l st, members_in its (fst st) -> (forall x, In x l -> In x its) ->
+  members_in its (fst (fold_left pass1_step l st)).
+Proof.
+  intros its l. induction l as [|x l IH]; intros st H Hl; [exact H|]. cbn [fold_left]. apply IH.
+  - unfold pass1_step. destruct (it_ty x); cbn [fst]; [|exact H]. apply members_coll_add; [exact H | apply Hl; left; reflexivity].
+  - intros y Hy. apply Hl. right. exact Hy.
+Qed.
+
+(* the shape of a dict key *)
+Lemma key_shape : forall its m, In m its ->
+  (exists t ty, In t its /\ is_typed t = true /\ it_kb t = it_kb m /\ it_ty t = Some ty /\ gk its m = (it_kb m, Some ty)) \/
+  (gk its m = (it_kb m, None) /\ forall t, In t its -> is_typed t = true -> it_kb t <> it_kb m).
+Proof.
+  intros its m Hm. destruct (it_ty m) as [ty|] eqn:Em.
+  - left. exists m, ty. repeat split; try assumption; [unfold is_typed; rewrite Em; reflexivity | apply gk_typed; exact Em].
+  - rewrite (gk_untyped its m Em). destruct (find (typed_with (it_kb m)) its) as [t|] eqn:Ef.
+    + left. apply find_some in Ef. destruct Ef as [Ht Hw]. unfold typed_with in Hw. apply andb_true_iff in Hw. destruct Hw as [Hty Hk].
+      apply Nat.eqb_eq in Hk. unfold is_typed in Hty. destruct (it_ty t) as [ty|] eqn:Et; [|discriminate].
+      exists t, ty. repeat split; try assumption; [unfold is_typed; rewrite Et; reflexivity | rewrite Hk; reflexivity].
+    + right. split; [reflexivity|]. intros t Ht Hty Hk. pose proof (find_none _ _ Ef t Ht) as Hn. unfold typed_with in Hn.
+      rewrite Hty, Hk, Nat.eqb_refl in Hn. discriminate.
+Qed.
+
+(* with the collector's invariant a group matches base b iff its key does *)
+Lemma base_matches_fst : forall its c b g, cinv its c -> In g c -> base_matches b g = Nat.eqb (fst (fst g)) b.
+Proof.
+  intros its c b [k ms] [H1 _ H3] Hin. unfold base_matches. cbn.
+  destruct ms as [|m ms']; [exfalso; exact (H3 _ Hin eq_refl)|]. cbn.
+  rewrite <- (H1 k (m :: ms') m Hin (or_introl eq_refl)), gk_fst. reflexivity.
+Qed.
+
+(* outside the ambiguity domain at most one key of the collector has the base class of an untyped feature *)
+Lemma one_matching_key : forall its c u, kf_ambiguous its = false -> cinv its c -> members_in its c ->
+  In u its -> it_ty u = None ->
+  forall g1 g2, In g1 c -> In g2 c -> base_matches (it_kb u) g1 = true -> base_matches (it_kb u) g2 = true -> fst g1 = fst g2.
+Proof.
+  intros its c u Hk Hc Hmem Hu Htu [k1 ms1] [k2 ms2] H1 H2 B1 B2.
+  rewrite (base_matches_fst its c _ _ Hc H1) in B1. rewrite (base_matches_fst its c _ _ Hc H2) in B2.
+  cbn [fst] in *. apply Nat.eqb_eq in B1. apply Nat.eqb_eq in B2.
+  destruct Hc as [Hs _ Hne].
+  destruct ms1 as [|m1 r1]; [exfalso; exact (Hne _ H1 eq_refl)|].
+  destruct ms2 as [|m2 r2]; [exfalso; exact (Hne _ H2 eq_refl)|].
+  pose proof (Hs _ _ m1 H1 (or_introl eq_refl)) as G1. pose proof (Hs _ _ m2 H2 (or_introl eq_refl)) as G2.
+  pose proof (Hmem _ _ m1 H1 (or_introl eq_refl)) as I1. pose proof (Hmem _ _ m2 H2 (or_introl eq_refl)) as I2.
+  assert (K1 : it_kb m1 = it_kb u) by (rewrite <- B1, <- G1, gk_fst; reflexivity).
+  assert (K2 : it_kb m2 = it_kb u) by (rewrite <- B2, <- G2, gk_fst; reflexivity).
+  assert (Uu : is_typed u = false) by (unfold is_typed; rewrite Htu; reflexivity).
+  destruct (key_shape its m1 I1) as [(t1 & ty1 & T1 & Y1 & Kb1 & E1 & S1)|[S1 N1]];
+  destruct (key_shape its m2 I2) as [(t2 & ty2 & T2 & Y2 & Kb2 & E2 & S2)|[S2 N2]].
+  - rewrite <- G1, <- G2, S1, S2, K1, K2.
+    pose proof (not_ambiguous its Hk u t1 t2 Hu T1 T2 Uu Y1 Y2 (eq_trans Kb1 K1) (eq_trans Kb2 K2)) as E.
+    rewrite E1, E2 in E. injection E as ->. reflexivity.
+  - exfalso. apply (N2 t1 T1 Y1). rewrite Kb1, K1, K2. reflexivity.
+  - exfalso. apply (N1 t2 T2 Y2). rewrite Kb2, K2, K1. reflexivity.
+  - rewrite <- G1, <- G2, S1, S2, K1, K2. reflexivity.
+Qed.
+
+Lemma find_existsb_none : forall A (p : A -> bool) l, existsb p l = false -> find p l = None.
+Proof. intros A p l. induction l as [|x l IH]; cbn; [reflexivity|]. destruct (p x); [discriminate | exact IH]. Qed.
+
+(* adding to every matching group = coll_add under the only matching key *)
+Lemma map_every_is_coll_add : forall (p : gkey * list item -> bool) k u c,
+  NoDup (map fst c) ->
+  (forall g, In g c -> p g = true -> fst g = k) ->
+  (exists g, In g c /\ p g = true) ->
+  map (fun g => if p g then (fst g, snd g ++ [u]) else g) c = coll_add k u c.
+Proof.
+  intros p k u c. induction c as [|[k' ms] t IH]; intros Hnd Hone Hex; [destruct Hex as [g [[] _]]|].
+  cbn [map coll_add fst snd]. cbn [map fst] in Hnd. apply NoDup_cons_iff in Hnd. destruct Hnd as [Hk' Hnd].
+  destruct (gkey_eqb k k') eqn:E.
+  - apply gkey_eqb_eq in E. subst k'.
+    assert (Ht : forall g, In g t -> p g = false).
+    { intros g Hg. destruct (p g) eqn:Pg; [|reflexivity]. exfalso. apply Hk'. rewrite <- (Hone g (or_intror Hg) Pg).
+      apply in_map. exact Hg. }
+    assert (Hp : p (k, ms) = true).
+    { destruct Hex as [g [[<-|Hg] Pg]]; [exact Pg | rewrite (Ht g Hg) in Pg; discriminate]. }
+    rewrite Hp. f_equal. clear -Ht. induction t as [|g t IH]; [reflexivity|]. cbn [map].
+    rewrite (Ht g (or_introl eq_refl)), IH; [reflexivity|]. intros g' Hg'. apply Ht. right. exact Hg'.
+  - assert (Hp : p (k', ms) = false).
+    { destruct (p (k', ms)) eqn:Pg; [|reflexivity]. pose proof (Hone _ (or_introl eq_refl) Pg) as Ek. cbn in Ek. subst k'.
+      rewrite gkey_eqb_refl in E. discriminate. }
+    rewrite Hp. f_equal. apply IH; [exact Hnd | intros g Hg; apply Hone; right; exact Hg|].
+    destruct Hex as [g [[<-|Hg] Pg]]; [rewrite Hp in Pg; discriminate | exists g; split; assumption].
+Qed.
+
+Lemma add_untyped_every_same : forall its c u, kf_ambiguous its = false -> cinv its c -> members_in its c ->
+  In u its -> it_ty u = None -> add_untyped_every c u = add_untyped c u.
+Proof.
+  intros its c u Hk Hc Hmem Hu Htu. unfold add_untyped_every, add_untyped.
+  destruct (existsb (base_matches (it_kb u)) c) eqn:Ex.
+  - destruct (find (base_matches (it_kb u)) c) as [[k ms]|] eqn:Ef.
+    + apply find_some in Ef. destruct Ef as [Hin Hb].
+      apply map_every_is_coll_add.
+      * destruct Hc as [_ Hnd _]. exact Hnd.
+      * intros g Hg Pg. exact (one_matching_key its c u Hk Hc Hmem Hu Htu g (k, ms) Hg Hin Pg Hb).
+      * exists (k, ms). split; assumption.
+    + exfalso. apply existsb_exists in Ex. destruct Ex as [g [Hg Pg]]. rewrite (find_none _ _ Ef g Hg) in Pg. discriminate.
+  - rewrite (find_existsb_none _ _ _ Ex). reflexivity.
+Qed.
+
+Lemma every_fold_same : forall its us done c, kf_ambiguous its = false ->
+  (forall u, In u us -> In u its /\ it_ty u = None) -> p2inv its done c -> members_in its c ->
+  fold_left add_untyped_every us c = fold_left add_untyped us c.
+Proof.
+  intros its us. induction us as [|u us IH]; intros done c Hk Hus Hinv Hmem; [reflexivity|]. cbn [fold_left].
+  destruct (Hus u (or_introl eq_refl)) as [Hu Htu].
+  rewrite (add_untyped_every_same its c u Hk (proj1 Hinv) Hmem Hu Htu).
+  apply (IH (done ++ [u])); [exact Hk | intros v Hv; apply Hus; right; exact Hv | apply p2inv_step; assumption|].
+  rewrite (add_untyped_target its done c u Hinv Htu). apply members_coll_add; assumption.
+Qed.
+
+Theorem every_same_outside_l : forall its, kf_ambiguous its = false -> group_items_every its = group_items its.
+Proof.
+  intros its Hk. unfold group_items_every, group_items, group_coll. f_equal.
+  destruct (p1inv_pass1 its) as (Hc & Hin & Hus & Hf).
+  apply (every_fold_same its _ []); [exact Hk | | |].
+  - intros u Hu. rewrite Hus in Hu. apply filter_In in Hu. destruct Hu as [Hi Hu]. split; [exact Hi|].
+    unfold is_typed in Hu. destruct (it_ty u); [discriminate | reflexivity].
+  - split; [exact Hc | split; [exact Hin | split; [intros ? [] |]]].
+    intros b. specialize (Hf b). destruct (find (typed_with b) its) as [t|]; cbn in Hf.
+    + exact Hf.
+    + intros g Hg. rewrite Hg in Hf. discriminate.
+  - unfold pass1. apply members_pass1; [intros ? ? ? [] | auto].
+Qed.
